@@ -162,6 +162,18 @@ func c03Ops() []c03Op {
 			stmts: func(c03State, c03Elem) []Stmt {
 				return []Stmt{Assign{Names: []string{"w"}, Vals: []Expr{Call{Fn: "mk"}}}}
 			}},
+		// the same operations inside functions that work on the program-level slices
+		c03Op{name: "gcopy() [n=copy(w,v) in a function]", ok: func(s c03State) bool { return len(s.objs[s.w]) <= len(s.objs[s.v]) },
+			apply: func(s *c03State) { s.objs[s.w] = append([]int{}, s.objs[s.v]...) },
+			stmts: func(c03State, c03Elem) []Stmt {
+				return []Stmt{ExprStmt{X: Call{Fn: "gcopy"}}, Print{Args: []Expr{StrLit{V: "copied"}, Var{"n"}}}}
+			}},
+		c03Op{name: "gset(len(v),c) [v[i]=e in a function]", ok: func(s c03State) bool { return len(s.objs[s.v]) <= 14 }, apply: func(s *c03State) { s.setAt(s.v, len(s.objs[s.v]), 3) },
+			stmts: func(s c03State, el c03Elem) []Stmt {
+				return []Stmt{ExprStmt{X: Call{Fn: "gset", Args: []Expr{lit(len(s.objs[s.v])), el.vals[3]}}}}
+			}},
+		c03Op{name: "galias() [w=v in a function]", ok: always, apply: func(s *c03State) { s.w = s.v },
+			stmts: func(c03State, c03Elem) []Stmt { return []Stmt{ExprStmt{X: Call{Fn: "galias"}}} }},
 		c03Op{name: "v=same(w)", ok: always, apply: func(s *c03State) { s.v = s.w },
 			stmts: func(c03State, c03Elem) []Stmt {
 				return []Stmt{Assign{Names: []string{"v"}, Vals: []Expr{Call{Fn: "same", Args: []Expr{Var{"w"}}}}}}
@@ -192,6 +204,9 @@ func c03HistoryProg(hist []int, ops []c03Op, el c03Elem) (*Prog, c03State) {
 		Define{Names: []string{"v"}, Form: DefShort, Vals: []Expr{SliceLit{Elem: el.t, Elems: []Expr{el.vals[1], el.vals[2]}}}},
 		Define{Names: []string{"w"}, Form: DefShort, Vals: []Expr{SliceLit{Elem: el.t}}},
 		Define{Names: []string{"n"}, Form: DefShort, Vals: []Expr{lit(0)}},
+		FuncDef{Name: "gcopy", Body: []Stmt{Assign{Names: []string{"n"}, Vals: []Expr{CopyE{Dst: "w", Src: Var{"v"}}}}}},
+		FuncDef{Name: "gset", Params: []Param{{"i", TInt}, {"e", el.t}}, Body: []Stmt{SliceSet{Name: "v", I: Var{"i"}, Val: Var{"e"}}, Print{Args: []Expr{StrLit{V: "gset"}, Len{X: Var{"v"}}}}}},
+		FuncDef{Name: "galias", Body: []Stmt{Assign{Names: []string{"w"}, Vals: []Expr{Var{"v"}}}}},
 	}
 	stmts = append(stmts, c03Dump(0, st)...)
 	for k, oi := range hist {
